@@ -92,6 +92,11 @@ def uvals (w : World) (u : VarId) (env : Env) : List (List Ev × Env) :=
   | some _ => [([], env)]
   | none => (enumFrom 0 (w.dom u)).map fun p => ([Ev.pull u p.1], (.var u, p.2) :: env)
 
+/-- `evaluate_condition`: the truth of the first result, `False` when there is none -/
+def firstTrue : Option (Env × Bool) → Bool
+  | some c => c.2
+  | none => false
+
 /-- one later value of the universal variable: every surviving candidate is re-checked by taking the FIRST result of
 `stream (merge candidate bindings)`; returns the events performed and the candidates that survive -/
 def recheck (stream : Env → List Ev) (envq : Env) : List Env → List Ev × List Env
@@ -99,7 +104,7 @@ def recheck (stream : Env → List Ev) (envq : Env) : List Env → List Ev × Li
   | sol :: rest =>
     let p := uptoCell (stream (merge sol envq))
     let r := recheck stream envq rest
-    let keep := match p.2 with | some c => c.2 | none => false
+    let keep := firstTrue p.2
     (p.1 ++ r.1, if keep then sol :: r.2 else r.2)
 
 /-- the later values of the universal variable, while candidates survive -/
